@@ -38,8 +38,8 @@ ACTION_PROPS = {
 ESC_PROPS = {
     "apply_operator_vector": ("C01", "C03", "C06"),
     "apply_operator_matrix": ("C01", "C03", "C06", "C09"),
-    "reorder_vector": ("C02",),
-    "reorder_matrix": ("C02",),
+    "reorder_vector": ("C02", "C03"),
+    "reorder_matrix": ("C02", "C03"),
     "trace_out_vector": ("C02",),
     "trace_out_matrix": ("C02", "C09"),
     "measure_vector": ("C04",),
@@ -75,4 +75,4 @@ def props_of(fi) -> tuple:
 
 
 def load_all() -> None:
-    from . import rnb, samp, route, struct, kraus, vbc, book, ident, block, pure, resize, dispatch, esc, measure  # noqa: F401
+    from . import rnb, samp, route, struct, kraus, vbc, book, ident, block, pure, resize, dispatch, esc, measure, layout  # noqa: F401
